@@ -346,7 +346,7 @@ Theorem Q_step T U A B w s :
   Q (grow U (new_op w s)) A B (step true T w s).1.
 Proof.
   intros I QQ Hok Hq.
-  destruct s as [n k v lease|n k|n sender b|n|m n|i j late|f| |n|n p|n p|n p|n s filter]; simpl in *; try destruct Hq.
+  destruct s as [n k v lease|n k|n sender b|n|m n|i j late|f| |n|n p|n p|n p|n s filter|n s]; simpl in *; try destruct Hq.
   - apply Q_write; assumption.
   - apply Q_write; assumption.
   - destruct (w_nodes w !! n); simpl; apply Q_grow_None; [eapply Q_ext; [| |exact QQ]; reflexivity|exact QQ].
@@ -367,6 +367,8 @@ Proof.
   - apply Q_grow_None, Q_fball, QQ.
   - apply Q_grow_None. unfold subscribe. destruct (w_nodes w !! n) as [nd|] eqn:En; [|exact QQ].
     destruct (n_subs nd !! s); [exact QQ|]. eapply (Q_upd_same U A B w n nd); [exact En|reflexivity|reflexivity|exact QQ].
+  - apply Q_grow_None. unfold stall. destruct (w_nodes w !! n) as [nd|] eqn:En; [|exact QQ].
+    eapply (Q_upd_same U A B w n nd); [exact En|reflexivity|reflexivity|exact QQ].
 Qed.
 
 (* ---------- runs ---------- *)
